@@ -77,7 +77,7 @@ Definition sw_free_state : ss_state :=
      st_blobbers := [sw_blobber 0 false 0 0 1000000000 0; sw_blobber 1 false 0 0 1000000000 0; sw_blobber 2 false 0 0 1000000000 0];
      st_validators := []; st_rpools := [];
      st_bals := [(300, 100000000000000); (1000, 15000000000000)];
-     st_assigners := [{| as_id := 700; as_indiv := 100000000000; as_total := 1000000000000; as_redeemed := 0; as_nonces := [] |}];
+     st_assigners := [{| as_id := 700; as_indiv := 100000000000; as_total := 1000000000000; as_redeemed := 0; as_nonces := []; as_key := 0 |}];
      st_reads := []; st_chals := [] |}.
 
-Definition sw_free_txn : Z * Z * ss_op := (1020, 1010, OpFreeAlloc 7 101 700 101 (Some 10000000000) 1 true [0; 1]).
+Definition sw_free_txn : Z * Z * ss_op := (1020, 1010, OpFreeAlloc 7 101 700 101 (Some 10000000000) 1 0 [0; 1]).
